@@ -19,7 +19,7 @@ import server_common  # noqa: E402
 def main():
     tier = vlib.tier_arg(sys.argv)
     rep = vlib.Report("C05", tier, "model_checking")
-    binary = server_common.build()
+    binary = rep.try_build(server_common.build, "tier 1 (scheduled harness in server/lib)")
     U = "all interleavings up to Mazurkiewicz equivalence (unbounded preemptions; DPOR + sleep sets)"
     S = "carrier schedules {single, cut inside ClientID / inside length prefix / inside payload / at a packet boundary then reconnect, two overlapping carriers, idle gaps of 30/59/61/95 s with a downstream packet written during the gap, a carrier attached and idle for 140 s, a session arriving after 100 s}"
     if tier == "quick":
@@ -39,8 +39,11 @@ def main():
             {"harness": "c05", "cfg": {"sessions": "2", "set": "reduced"}, "budget_s": 400, "label": "2 concurrent sessions x 4 schedules each, two upstream packets per carrier: " + U},
         ]
         total = 1000
-    summary, tot, samples, exh = sched.run_passes(rep, binary, passes, total)
-    sched.sched_coverage(rep, summary, tot, samples, exh)
+    if binary:
+        summary, tot, samples, exh = sched.run_passes(rep, binary, passes, total)
+        sched.sched_coverage(rep, summary, tot, samples, exh)
+    else:
+        rep.coverage.update({"exhaustive": False, "traces_validated_against_impl": 0})
     # tier 2: real stack on loopback
     try:
         files = {"zz_verif_" + os.path.basename(f): f for f in glob.glob(os.path.join(vlib.VERIF, "harness", "serverlib", "*_test.go"))}
@@ -53,8 +56,8 @@ def main():
         rep.coverage["traces_validated_against_impl"] += res["evaluations"]
         if not res["exhaustive"]:
             rep.coverage["exhaustive"] = False
-    except vlib.EngineError as e:
-        rep.engine_errors.append(str(e))
+    except (vlib.EngineError, SystemExit) as e:
+        rep.engine_errors.append("tier 2: " + str(e))
     rep.assumptions += [
         "virtual time: computation is instantaneous relative to timers (the ClientMap sweeper never closes a queue between SendQueue() and the send that follows it)",
         "carriers are in-memory byte streams (what websocketconn.Conn is to turbotunnelMode); KCP/smux are replaced by a stand-in that reads packets, looks the client address up on a session's first packet (as acceptStreams does) and answers each packet",
